@@ -280,10 +280,13 @@ func TestVerifC01(t *testing.T) {
 				}
 				p, e := 1, 1
 				if thorough {
-					p, e = 2, 2
+					p, e = 2, 1
+					if c.q == 1 && !c.faults && (sc.name == "S1" || sc.name == "S3" || sc.name == "S5") {
+						e = 2 // smallest configurations: one more environment deviation
+					}
 				}
-				r.Bound("preemptions", p)
-				r.Bound("env_deviations", e)
+				r.Bound("max_preemptions", p)
+				r.Bound("max_env_deviations", e)
 				r.Bound("scenarios", len(scs))
 				r.Bound("configs(queue,batch,blocking,exporter-faults)", len(cfgs))
 				var res string
